@@ -41,6 +41,22 @@ func genC02(t *rapid.T) c02Case {
 	case 1:
 		sc.Schema.GCThresh = float32(rapid.IntRange(1, 90).Draw(t, "gcthv")) / 100
 	}
+	// channel creation and deletion in the middle of the script (channels 101 = index,
+	// 102 = its data channel; they never hold data)
+	if len(sc.Ops) > 0 && rapid.IntRange(0, 2).Draw(t, "mkchan") > 0 {
+		at := rapid.IntRange(0, len(sc.Ops)).Draw(t, "mkchan_at")
+		ops := append([]vOp{}, sc.Ops[:at]...)
+		ops = append(ops, vOp{K: "mkchan", Keys: []uint32{101, 102}})
+		ops = append(ops, sc.Ops[at:]...)
+		if rapid.Bool().Draw(t, "rmchan") {
+			rat := rapid.IntRange(at+1, len(ops)).Draw(t, "rmchan_at")
+			ops2 := append([]vOp{}, ops[:rat]...)
+			ops2 = append(ops2, vOp{K: "rmchan", Keys: []uint32{102, 101}})
+			ops2 = append(ops2, ops[rat:]...)
+			ops = ops2
+		}
+		sc.Ops = ops
+	}
 	return c02Case{Script: sc, Pick: rapid.Uint64().Draw(t, "pick"), MaxPoints: 500}
 }
 
@@ -163,6 +179,30 @@ func c02Produce(t *testing.T, sc vScript, st *drv.Stats) (rec *c02Rec, fail *drv
 				case "close":
 					m.durable = wchans
 				}
+			}
+			if op.K == "mkchan" || op.K == "rmchan" {
+				var err error
+				if op.K == "mkchan" {
+					err = r.db.CreateChannel(r.ctx,
+						Channel{Key: ChannelKey(op.Keys[0]), Name: "x" + strconv.Itoa(int(op.Keys[0])), DataType: telem.TimeStampT, IsIndex: true},
+						Channel{Key: ChannelKey(op.Keys[1]), Name: "x" + strconv.Itoa(int(op.Keys[1])), DataType: telem.Int64T, Index: ChannelKey(op.Keys[0])})
+				} else {
+					keys := make([]ChannelKey, len(op.Keys))
+					for ki, k := range op.Keys {
+						keys[ki] = ChannelKey(k)
+					}
+					err = r.db.DeleteChannels(keys)
+				}
+				if err != nil {
+					fail = drv.Failf("unexpected-error", op.K+":"+errSig(err), "op %d %s: %v", i, op.K, err)
+					return
+				}
+				synctest.Wait()
+				m.ret = r.core.LogLen()
+				rec.marks = append(rec.marks, m)
+				rec.snapshot(r, len(rec.marks)-1)
+				st.Probe(op.K)
+				continue
 			}
 			_, f := r.step(i, op)
 			if f != nil {
@@ -550,6 +590,49 @@ func runC02(t *testing.T, c c02Case, st *drv.Stats) *drv.Failure {
 					_ = db.Close()
 					fail = drv.Failf("recovery-name", psig, "%s: channel %d recovered with name %q, which it did not have between the last completed rename (op %d) and the crash", where, ch.Key, got.Name, dn)
 					continue nextPoint
+				}
+			}
+			// channels created / deleted in the middle of the script
+			{
+				mk, rm := -1, -1
+				for mi, m := range rec.marks {
+					switch m.op {
+					case "mkchan":
+						mk = mi
+					case "rmchan":
+						rm = mi
+					}
+				}
+				mustExist := mk >= 0 && p.n >= rec.marks[mk].ret && (rm < 0 || p.n <= rec.marks[rm].inv)
+				mayExist := mk >= 0 && p.n > rec.marks[mk].inv && (rm < 0 || p.n < rec.marks[rm].ret)
+				for _, k := range []uint32{101, 102} {
+					got, err := db.RetrieveChannel(r.ctx, ChannelKey(k))
+					switch {
+					case err != nil && mustExist:
+						_ = db.Close()
+						fail = drv.Failf("recovery-channel-missing", psig+":created-channel:"+errSig(err), "%s: channel %d, whose creation had completed, cannot be retrieved after recovery: %v", where, k, err)
+						continue nextPoint
+					case err != nil:
+						continue
+					case !mayExist:
+						_ = db.Close()
+						fail = drv.Failf("recovery-channel-resurrected", psig, "%s: channel %d exists after recovery although it %s", where, k, map[bool]string{true: "had been deleted", false: "was never created"}[mk >= 0])
+						continue nextPoint
+					}
+					wantDT, wantIdx := telem.Int64T, ChannelKey(101)
+					if k == 101 {
+						wantDT, wantIdx = telem.TimeStampT, ChannelKey(101)
+					}
+					if got.Key != ChannelKey(k) || got.DataType != wantDT || got.IsIndex != (k == 101) || (k == 102 && got.Index != wantIdx) || got.Name != "x"+strconv.Itoa(int(k)) {
+						_ = db.Close()
+						fail = drv.Failf("recovery-channel-garbled", psig, "%s: channel %d recovered as %+v", where, k, got)
+						continue nextPoint
+					}
+					if fr, err := db.Read(r.ctx, telem.TimeRangeMax, ChannelKey(k)); err != nil || fr.Len() > 0 {
+						_ = db.Close()
+						fail = drv.Failf("recovery-read-error", psig+":created-channel:"+errSig(err), "%s: read of the empty channel %d: %d samples, err %v", where, k, fr.Len(), err)
+						continue nextPoint
+					}
 				}
 			}
 			// the recovered database must accept new writes: one fresh sample per index
